@@ -7,6 +7,37 @@ BASE_CMD = ("cd /repo && /venv/bin/python -m pytest -ra -q -p no:cacheprovider -
 TRUST = ("Trusted: CPython, numpy, the reference model in pmc/ref.py (exact rationals, self-tested against the "
          "documentation's worked examples), the enumerators' bounds as stated in the evidence file.")
 CHECKS = {
+ 'C01': dict(
+    technique="explicit-state exploration of the implementation: BFS over operation histories with canonical-state hashing; invariant (conservation + frame) on every transition",
+    text="Every transfer reachable by the bounded exhaustive enumeration (all ordered pairs of source/destination forms incl. same-plate "
+         "regions x 4 units from 3 base states, every unit spelling x size x pairing form, and all histories of <= 3/4 operations over a "
+         "48-action alphabet) is executed on the real API; per-substance totals over the whole world and bit-identity of untouched wells are checked on each.",
+    note="Bounded depth and data tables (3 valuations); tolerance 1e-9 storage units per written well. " + TRUST,
+    ref="DESIGN.md section 4 C01"),
+ 'C02': dict(
+    technique="explicit-state exploration of the implementation in lock-step with an exact-rational reference model (per-pair aliquot), plus exhaustive chains over a ring alphabet",
+    text="Same enumerated space as C01; every accepted transfer is compared pair by pair with the reference aliquot (one common fraction, size q in the unit of q); "
+         "all chains of <= 5/7 transfers over an 8-action ring are executed with per-step aliquot check, cumulative conservation and a lock-step reference.",
+    note="Quantities are multiples of the documented internal resolution; tolerance accounts for the storage resolution (1e-10 per stored amount). " + TRUST,
+    ref="DESIGN.md section 4 C02"),
+ 'C03': dict(
+    technique="explicit-state exploration with a state-sanity invariant, plus exhaustive boundary enumeration (below/at/above every feasibility constraint) classified by the reference model",
+    text="Sanity (no negative amount/volume, volume <= capacity) of every object returned along every history of the full operation menu incl. infeasible requests; "
+         "~3 500 boundary cases (all exact-capacity fills 1..200 mL / 0.1..5.0 mL in three spellings, over-draw/negative/zero/empty in L, g, mol, U, destination capacity, fill_to, dilute, create_solution(_from)), directly and as recipe steps.",
+    note="'at the boundary' is must-accept only for decimal-exact boundaries; margins 0.1 %-5 %. " + TRUST,
+    ref="DESIGN.md section 4 C03"),
+ 'C04': dict(
+    technique="explicit-state exploration with structural fingerprints of every argument and every earlier result before/after each call (returned or raised)",
+    text="Along every history of the full menu incl. failing calls, every argument and every object produced earlier is re-fingerprinted after each call; "
+         "all (18 slice geometries x 7 x 7 operation pairs) with one slice object held across both calls; every action as recipe (declare, add, bake, re-use results).",
+    note="Fingerprints cover name, exact contents, volume, capacity, instructions, every well, labels, slice bindings, substance attributes. " + TRUST,
+    ref="DESIGN.md section 4 C04"),
+ 'C10': dict(
+    technique="explicit-state exploration with an observer monitor: every observer of every changed object compared with the exact-rational definition on every reached state",
+    text="On every state of the full-menu BFS and the geometry/unit sweeps: stored volume vs contents, get_volume (7 units), get_concentration (6 substances x 26 unit spellings), "
+         "plate/slice get_volumes, get_moles, get_volume, get_substances.",
+    note="Volumes below ten internal resolutions are not judged per litre. " + TRUST,
+    ref="DESIGN.md section 4 C10"),
  'C16': dict(
     technique="explicit-state model checking: TLC enumerates the TLA+ lifecycle model; every edge of the dumped "
               "state graph is replayed on the real Recipe by a product search over (model state, implementation fingerprint)",
